@@ -32,11 +32,16 @@ func init() { Register(c05{}) }
 func (c05) ID() string     { return "C05" }
 func (c05) Flavor() string { return "instr" }
 func (c05) Runs(tier string) int {
+	// one run in eight enumerates the fault points of a document; the others are histories in which every save event
+	// compares the two entry points (no enumeration: milliseconds each)
 	if tier == "thorough" {
-		return 1200
+		return 9600
 	}
-	return 64
+	return 640
 }
+
+// c05Enumerates says whether run i is an enumeration run (spread evenly over the worker processes, which take the indices modulo 16).
+func c05Enumerates(i uint64) bool { return (i/16+i%16)%8 == 0 }
 
 // HangSeconds: one run enumerates every byte offset of a document and may take minutes.
 func (c05) HangSeconds() int { return 1800 }
@@ -66,10 +71,38 @@ func (c05) Describe() Description {
 }
 
 func (c05) Nontrivial(c *sim.Case, st *sim.Stats) bool {
+	if c.C("class") == 3 {
+		return c.NOps() >= 4 && st.Probes["save_events_compared"] >= 1
+	}
 	return c.NOps() >= 3 && (st.Faults["W-limit"] > 0 || st.Faults["W-full"] > 0 || st.Faults["call-write"] > 0)
 }
 
 func (c05) Gen(r *sim.Rand, c *sim.Case, tier string) {
+	if !c05Enumerates(c.Run) {
+		// agreement lane: a history over the whole vocabulary (removals, pictures, notes, lists, restarts, now and then a second
+		// document in between); at every save event Save(path) and ToBytes must agree part for part
+		g := world.NewGen(r)
+		g.Extra = true
+		g.Alpha = []int{0, 4}
+		g.Fam = world.FBody
+		for f := 1; f < world.FAll; f <<= 1 {
+			if r.Chance(0.4) {
+				g.Fam |= f
+			}
+		}
+		g.HFOncePerKind, g.RectTablesOnly, g.WellFormedMath = true, true, true
+		ops := sprinkleSavesOpt(r, g.DocOps(0, r.Range(3, 30)), 0, r.Range(2, 6), 0.2, 0, false)
+		if r.Chance(0.3) {
+			g2 := world.NewGen(r.Fork())
+			g2.Fam = world.FBody | world.FNote | world.FList | world.FImage
+			ops = interleave(r, ops, sprinkleSavesOpt(r, g2.DocOps(1, r.Range(2, 8)), 1, 4, 0, 0, false))
+		}
+		c.Tasks = [][]sim.Op{ops}
+		c.Order = orderPolicy(r)
+		c.OrderSeed = r.Uint64()
+		c.Cfg["class"] = 3
+		return
+	}
 	g := world.NewGen(r)
 	class := r.Intn(10)
 	g.Alpha = []int{0, 1, 3, 4}
@@ -100,6 +133,55 @@ func (c05) Gen(r *sim.Rand, c *sim.Case, tier string) {
 		c.Cfg["bound"] = 64 << 10
 	}
 	c.Cfg["sample_seed"] = int(r.Uint64() >> 33)
+}
+
+// agreement executes a history; at every save event of it the document is serialised through both entry points, in one of
+// the two orders, and the results must hold the same parts byte for byte.
+func (p c05) agreement(c *sim.Case, w *world.World, dir string, env *Env) []sim.Violation {
+	n := 0
+	for _, op := range c.Tasks[0] {
+		if op.K != "save" {
+			if o := w.Apply(op); o.Panic != "" {
+				return nil // a panic while editing is some other property's finding
+			}
+			continue
+		}
+		ds := w.Doc(op.D)
+		if ds.Dead || ds.D == nil {
+			continue
+		}
+		n++
+		path := filepath.Join(dir, fmt.Sprintf("agree%d.docx", n))
+		var tb, sb []byte
+		var e1, e2 error
+		order := "tobytes-then-save"
+		sig, pn := Guard(func() {
+			if op.Int(0) == 0 {
+				tb, e1 = ds.D.ToBytes()
+				e2 = ds.D.Save(path)
+			} else {
+				order = "save-then-tobytes"
+				e2 = ds.D.Save(path)
+				tb, e1 = ds.D.ToBytes()
+			}
+		})
+		if pn {
+			return []sim.Violation{{Clause: "panic", Sig: sig, Detail: "a save panicked"}}
+		}
+		sb, _ = os.ReadFile(path)
+		os.Remove(path)
+		env.Stats.Probe("save_events_compared")
+		if (e1 == nil) != (e2 == nil) {
+			return []sim.Violation{{Clause: "save-vs-tobytes", Sig: "history:one-fails", Detail: fmt.Sprintf("save event %d (%s): ToBytes says %v, Save says %v", n, order, e1, e2)}}
+		}
+		if e1 != nil {
+			continue
+		}
+		if ok, why := sameParts(sb, tb); !ok {
+			return []sim.Violation{{Clause: "save-vs-tobytes", Sig: "history:" + order, Detail: fmt.Sprintf("save event %d of the history (%s): %s", n, order, why)}}
+		}
+	}
+	return nil
 }
 
 var sigxfszIgnored bool
@@ -175,6 +257,9 @@ func (p c05) Exec(c *sim.Case, env *Env) []sim.Violation {
 	dir := env.MkTmp("c05")
 	defer os.RemoveAll(dir)
 	w := world.New(env.Stats, env.Log, dir)
+	if c.C("class") == 3 {
+		return p.agreement(c, w, dir, env)
+	}
 	w.Run(c.Tasks[0])
 	ds := w.Doc(0)
 	if ds.Dead {
